@@ -63,8 +63,11 @@ func (impl Implementation) Dgels(trans blas.Transpose, m, n, nrhs int, a []float
 
 	// Quick return if possible.
 	if mn == 0 || nrhs == 0 {
-		impl.Dlaset(blas.All, max(m, n), nrhs, 0, 0, b, ldb)
 		work[0] = 1
+		if lwork == -1 {
+			return true
+		}
+		impl.Dlaset(blas.All, max(m, n), nrhs, 0, 0, b, ldb)
 		return true
 	}
 
